@@ -510,7 +510,7 @@ def api_design(ctx, negatives=None):
     return runs
 
 
-SHAPE_OF_CFG = {"GenWalks_2.cfg": [2], "GenWalks_22.cfg": [2, 2], "GenWalks_2keys.cfg": [2]}
+SHAPE_OF_CFG = {"GenWalks_2.cfg": [2], "GenWalks_22.cfg": [2, 2], "GenWalks_2keys.cfg": [2], "GenWalks_25.cfg": [2, 5], "GenWalks_52.cfg": [5, 2]}
 
 
 def gen_walks(ctx, cfg, num, depth=600):
@@ -543,7 +543,8 @@ def concretise_walk(name, walk, heights, wi, aux_mode="none"):
         return algs[k]
 
     def params_of(k):
-        return [(ws[(wi + i + (0 if k == "k1" else 1)) % 4], h) for i, h in enumerate(heights)]
+        ps = [(ws[(wi + i + (0 if k == "k1" else 1)) % 4], h) for i, h in enumerate(heights)]
+        return [(4 if (h == 5 and w == 8) else w, h) for w, h in ps]      # an H5/W8 tree costs TLC ~7 s
 
     msgs = {"m1": msg_hex(name + "/m1", 13), "m2": msg_hex(name + "/m2", 40)}
     n_sign = 0
@@ -556,7 +557,12 @@ def concretise_walk(name, walk, heights, wi, aux_mode="none"):
                 kg["aux"] = {"rep": 600, "byte": 0}
                 kg["out"]["aux"] = "aux_" + k
             kg["k"] = k
+            start = a.get("start", 0)
+            if start:
+                kg["start_ctr"] = "%016x" % start
             cmds.append(kg)
+            if start:
+                cmds.append({"op": "set", "slot": "store_" + k, "value": key_at("store_" + k, start)})
             cmds.append({"op": "load", "alg": alg, "mem": "mem_" + k, "key": slot("store_" + k), "k": k})
         elif a["a"] == "sign":
             alg = alg_of(k)
@@ -679,7 +685,10 @@ def api_phases(ctx, emphasis):
     nw = 10 if quick else 40
     plan = [("GenWalks_2.cfg", nw, ["none", "valid", "fresh", "garbage"]),
             ("GenWalks_22.cfg", nw, ["none", "fresh", "valid"]),
-            ("GenWalks_2keys.cfg", nw // 2, ["none"])]
+            ("GenWalks_2keys.cfg", nw // 2, ["none"]),
+            # mixed per-level heights, the last ten one-time keys of a 2^7 lifetime (roll-overs, exhaustion)
+            ("GenWalks_25.cfg", 3 if quick else nw // 2, ["none", "valid"]),
+            ("GenWalks_52.cfg", 3 if quick else nw // 2, ["none", "fresh"])]
     groups = api_walk_groups(ctx, plan)
     # deterministic systematic walks: complete lifetimes under every callback plan
     cyc = [["accept"], ["reject", "accept"], ["crash_before", "accept", "reject", "crash_after"], ["crash_after"]]
